@@ -469,11 +469,18 @@ class Facts:
         return None
 
     def find(self, pat):
+        """Bodies whose def path matches. A closure that came with a spliced helper lives under
+        `<caller>::{inl#k}::{closure#n}`; it also answers to the name it would have had if it had been written in
+        the caller (`<caller>::{closure#n}`)."""
         rx = re.compile(pat)
-        return [b for p, b in self.bodies.items() if rx.search(p)]
+        return [b for p, b in self.bodies.items() if rx.search(p) or ('::{inl#' in p and rx.search(_INL_SEG.sub('', p)))]
 
     def one(self, pat):
         r = self.find(pat)
+        if len(r) > 1:
+            own = [b for b in r if '::{inl#' not in b.path]
+            if len(own) == 1:
+                r = own
         if len(r) != 1:
             raise AnchorLost('expected exactly one body matching %r, found %d: %s' % (pat, len(r), [b.path for b in r][:6]))
         return r[0]
@@ -598,6 +605,9 @@ class Facts:
 
     def variant_name(self, adt_path, idx):
         return self.adts[adt_path]['variants'][idx]['name']
+
+
+_INL_SEG = re.compile(r'::\{inl#\d+\}')
 
 
 class AnchorLost(Exception):
